@@ -268,6 +268,8 @@ pub async fn run_async(plan: &PlanA, opts: &ExecOpts) -> RunResult {
     let mut holders: HashMap<Ipv4Addr, Holder> = HashMap::new();
     let mut ids_used: BTreeSet<Ipv4Addr> = BTreeSet::new();
     let mut nontrivial_events = 0u64;
+    let mut handed: BTreeSet<u32> = BTreeSet::new();
+    let mut refused_tail = 0usize; /* consecutive unanswered DISCOVERs at the end (drain shape) */
 
     /* group steps by instant */
     let mut i = 0;
@@ -345,7 +347,8 @@ pub async fn run_async(plan: &PlanA, opts: &ExecOpts) -> RunResult {
 
         let conf = &plan.configs[cfg_idx];
         let sequential = dhcp_steps.len() + raw_steps.len() == 1;
-        let before = if !dhcp_steps.is_empty() || !raw_steps.is_empty() { vfs::read_rows().ok() } else { None };
+        let light = plan.shape == "drain-large";
+        let before = if (!dhcp_steps.is_empty() || !raw_steps.is_empty()) && !light { vfs::read_rows().ok() } else { None };
         let no_addr_before = counter("dhcp_errors", Some(("reason", "NO_ADDRESS")));
         let now = crate::interpose::wall_now_secs();
         let _ = kernel.take_out();
@@ -448,18 +451,25 @@ pub async fn run_async(plan: &PlanA, opts: &ExecOpts) -> RunResult {
             ifidx: u32,
         }
         let mut replies: Vec<Reply> = vec![];
+        let mut refused_frames = 0;
         for o in &outs {
             if let OutKind::Frame { ifidx, data } = &o.kind {
                 if let Some(e) = o.errno {
-                    res.observations.push(format!("frame refused by the kernel: errno {} len {}", e, data.len()));
-                    res.violate("C12", "C12.frame_refused_by_kernel", format!("AF_PACKET send of {} octets on if#{} failed with errno {}", data.len(), ifidx, e), group[0].0);
+                    /* a reply that does not fit the link MTU (long configured options on a
+                     * small-MTU interface) is refused by the kernel; the statement of C12 does
+                     * not cover that, so it is an observation and the message counts as lost */
+                    res.observations.push(format!("frame refused by the kernel: errno {}", e));
+                    refused_frames += 1;
+                    if e != libc::EMSGSIZE {
+                        res.violate("C12", "C12.frame_refused_by_kernel", format!("AF_PACKET send of {} octets on if#{} failed with errno {}", data.len(), ifidx, e), group[0].0);
+                    }
                     continue;
                 }
                 match codec_dhcp::decode_frame(data) {
                     Err(e) => res.violate("C12", "C12.invalid_frame", format!("{} -- frame {}", e, hex(data)), group[0].0),
                     Ok(frame) => {
-                        let (msg, decode_err) = match codec_dhcp::decode(&frame.payload) {
-                            Ok(m) => (Some(m), None),
+                        let (msg, decode_err) = match codec_dhcp::decode_lenient(&frame.payload) {
+                            Ok((m, e)) => (Some(m), e),
                             Err(e) => (None, Some(e)),
                         };
                         replies.push(Reply { frame, msg, decode_err, ifidx: *ifidx });
@@ -488,6 +498,15 @@ pub async fn run_async(plan: &PlanA, opts: &ExecOpts) -> RunResult {
             }).collect();
             let replied = !mine.is_empty();
             let mtype = s.spec.mtype;
+            if mtype == Some(1) {
+                refused_tail = if replied { 0 } else { refused_tail + 1 };
+            }
+            if s.spec.must_answer {
+                res.probe("C05.liveness_probe_after_hostile_input");
+                if !replied && !crashed && !disk_fault_now && refused_frames == 0 {
+                    res.violate("C05", "C05.dhcp_service_stopped_answering", format!("a well-formed DISCOVER from a client with a reservation got no reply after the hostile datagram before it (step {})", s.step), s.step);
+                }
+            }
             let pool = conf.allowed(&client.chaddr, lan);
 
             // ---- C13: who may be answered, and what a non-answer may touch
@@ -509,7 +528,8 @@ pub async fn run_async(plan: &PlanA, opts: &ExecOpts) -> RunResult {
                     res.probe("C13.foreign_server_id");
                 }
             }
-            if sequential && !replied && !crashed && !disk_fault_now {
+            let meant_for_us = pool.is_some() && (mtype == Some(1) || (mtype == Some(3) && s.sid.map(|x| host_ips.contains(&x)).unwrap_or(true)));
+            if sequential && !replied && !crashed && !disk_fault_now && !meant_for_us {
                 if let (Some(b), Some(a)) = (&before, &after) {
                     if b.0 != a.0 {
                         let diff: Vec<&Row> = a.0.iter().filter(|r| !b.0.contains(r)).collect();
@@ -532,8 +552,18 @@ pub async fn run_async(plan: &PlanA, opts: &ExecOpts) -> RunResult {
                     continue;
                 };
                 let x = m.yiaddr;
+                handed.insert(u32::from(x));
                 let l51 = m.opt_u32(51);
                 nontrivial_events += 1;
+                /* an option longer than 255 octets (or any broken TLV) garbles everything
+                 * after it; that is reported once, under C12, and the option-reading
+                 * oracles of other properties stay away from such a payload */
+                let long_tracer = (conf.captive_portal.as_ref().map(|c| c.len() > 255).unwrap_or(false) && s.spec.param_list.contains(&114))
+                    || (conf.dns_search.iter().map(|d| d.len() + 2).sum::<usize>() > 255 && s.spec.param_list.contains(&119));
+                let garbled = r.decode_err.is_some() || long_tracer;
+                if let Some(e) = &r.decode_err {
+                    res.violate("C12", "C12.payload_does_not_decode", format!("{} -- payload {}", e, hex(&r.frame.payload)), s.step);
+                }
 
                 // ---- C12: the frame and the payload as a conforming client reads them
                 if r.ifidx != lan.ifidx {
@@ -569,7 +599,7 @@ pub async fn run_async(plan: &PlanA, opts: &ExecOpts) -> RunResult {
                 }
                 let asked = |code: u8| s.spec.param_list.contains(&code);
                 if let Some(cp) = &conf.captive_portal {
-                    if asked(114) {
+                    if asked(114) && (!garbled || cp.len() > 255) {
                         res.probe(if cp.len() > 255 { "C12.tracer_option_over_255" } else { "C12.tracer_option" });
                         match m.opt(114) {
                             Some(v) if v == cp.as_bytes() => (),
@@ -582,7 +612,7 @@ pub async fn run_async(plan: &PlanA, opts: &ExecOpts) -> RunResult {
                         }
                     }
                 }
-                if !conf.dns_search.is_empty() && asked(119) {
+                if !conf.dns_search.is_empty() && asked(119) && (!garbled || conf.dns_search.iter().map(|d| d.len() + 2).sum::<usize>() > 255) {
                     let total: usize = conf.dns_search.iter().map(|d| d.len() + 2).sum();
                     res.probe(if total > 255 { "C12.tracer_option_over_255" } else { "C12.tracer_option" });
                     match m.opt(119).map(|v| decode_search_list(&v)) {
@@ -606,6 +636,7 @@ pub async fn run_async(plan: &PlanA, opts: &ExecOpts) -> RunResult {
                     );
                 }
                 match m.opt_ip(54) {
+                    _ if garbled => (),
                     Some(id) if host_ips.contains(&id) => {
                         ids_used.insert(id);
                         cstate[s.spec.client].last_server = Some(id);
@@ -630,7 +661,7 @@ pub async fn run_async(plan: &PlanA, opts: &ExecOpts) -> RunResult {
                         } else if u32::from(x) == lan.broadcast() {
                             "broadcast_address"
                         } else if x == lan.server_ip {
-                            "server_own_address"
+                            if conf.allowed_src(&client.chaddr, lan).1 { "server_own_address.from_policy_pool" } else { "server_own_address.from_addresses" }
                         } else if conf.policies.iter().any(|p| format!("{:?}", p).contains(&format!("{}", x))) {
                             "reserved_for_someone_else"
                         } else {
@@ -667,7 +698,7 @@ pub async fn run_async(plan: &PlanA, opts: &ExecOpts) -> RunResult {
 
                 // ---- C10: lease time bounds and the server's own record
                 let is_offer_or_ack = matches!(m.msg_type(), Some(2) | Some(5));
-                if is_offer_or_ack {
+                if is_offer_or_ack && !garbled {
                     match l51 {
                         None => res.violate(
                             "C10",
@@ -738,7 +769,7 @@ pub async fn run_async(plan: &PlanA, opts: &ExecOpts) -> RunResult {
                         .filter_map(|r| r.address.parse::<Ipv4Addr>().ok().map(u32::from))
                         .filter(|a| p.contains(a))
                         .collect();
-                    if !held_strict.is_empty() && sid_ok {
+                    if !held_strict.is_empty() && sid_ok && client.chaddr.len() >= 6 && refused_frames == 0 {
                         let all_held: Vec<&Row> = before_rows.values().filter(|r| r.clientid.as_deref() == Some(&s.identity[..]) && r.expiry > now).collect();
                         if all_held.len() > 1 {
                             res.probe("C09.client_holds_several_leases");
@@ -804,7 +835,11 @@ pub async fn run_async(plan: &PlanA, opts: &ExecOpts) -> RunResult {
             let wall = crate::interpose::wall_now_secs();
             let reply = http_get(&kernel, from, to, path).await;
             for (loc, msg) in crate::common::take_panics() {
-                res.violate("C05", &format!("C05.panic@{}", loc), format!("panic while serving {}: {}", path, msg), *si);
+                if loc.contains("addr/mod.rs") {
+                    res.violate("C08", "C08.unix_peer_address_kills_api_listener", format!("accepting a unix-socket client ({:?}) panicked at {} ({}); the listener task is gone", via, loc, msg), *si);
+                } else {
+                    res.violate("C20", &format!("C20.panic_while_serving@{}", loc), format!("panic while serving {}: {}", path, msg), *si);
+                }
             }
             match reply {
                 Err(e) => res.observations.push(format!("http {} via {:?}: {}", path, via, e)),
@@ -871,6 +906,36 @@ pub async fn run_async(plan: &PlanA, opts: &ExecOpts) -> RunResult {
         }
         if res.harness_error.is_some() {
             break;
+        }
+    }
+    if plan.shape.starts_with("drain") && res.harness_error.is_none() {
+        /* the "conversely" clause of C02: everything the manual grants was leasable */
+        let lan = &plan.lans[0];
+        let mut d: BTreeSet<u32> = plan.configs[0].allowed(&[0x02, 0, 0, 0, 9, 9], lan).unwrap_or_default();
+        for (a, _, _, _) in &plan.prefill {
+            d.remove(&u32::from(*a));
+        }
+        res.probe("C02.drain_run");
+        if refused_tail >= 2 {
+            res.probe("C02.pool_drained");
+            let missing: Vec<Ipv4Addr> = d.difference(&handed).map(|a| Ipv4Addr::from(*a)).collect();
+            if !missing.is_empty() {
+                let last_host = Ipv4Addr::from(lan.broadcast() - 1);
+                let first_host = Ipv4Addr::from(lan.network() + 1);
+                let kind = if missing.contains(&last_host) {
+                    "C02.last_host_address_never_leased"
+                } else if missing.contains(&first_host) {
+                    "C02.first_host_address_never_leased"
+                } else {
+                    "C02.documented_address_never_leased"
+                };
+                res.violate("C02", kind, format!("pool drained (the last {} DISCOVERs were refused) but {:?} of the {} documented addresses were never leased; config:\n{}", refused_tail, &missing[..missing.len().min(6)], d.len(), plan.configs[0].yaml()), plan.steps.len());
+            }
+            if d.contains(&(lan.broadcast() - 1)) && handed.contains(&(lan.broadcast() - 1)) {
+                res.probe("C02.last_host_address_issued");
+            }
+        } else {
+            res.observations.push(format!("drain did not exhaust the pool ({} of {} leased)", handed.len(), d.len()));
         }
     }
     res.steps = plan.steps.len();
